@@ -334,14 +334,15 @@ Section Exec.
   Variable keqb : K -> K -> bool.
   Variable t : table.
 
-  (* an UPDATE event of the correspondence is (session parameters, attribute block): the body IS the block *)
-  Definition xstep := step Z Z (list (Z * Z)) unit unit K proj keqb (tdec t) (fun c => c) (fun b => Some b)
-                           (fun _ _ _ => tt) (fun _ => false) (fun _ _ => [])
+  (* an UPDATE event of the correspondence is (session parameters, flag :: attribute block); flag = 1 when the
+     (stateless) NLRI part of that message holds no announce and no withdraw, as measured on a fresh decode *)
+  Definition xstep := step Z Z (list (Z * Z)) bool unit K proj keqb (tdec t) (fun c => c) (fun b => Some (tl b))
+                           (fun _ b _ => match b with 1 :: _ => true | _ => false end) (fun n => n) (fun _ _ => [])
                            (fun _ => Some tt) (fun _ => []) (fun _ => None) (fun k => k) (fun _ _ _ => []).
 
-  (* per message: -1 - e for an exception e, else the list of (code, value id) of the collection returned,
-     flattened as code, value, ... and closed by -1000 *)
-  Definition xobs (o : output Z Z (list (Z * Z)) unit unit) : list Z :=
+  (* per message: -1 - e for an exception e out of the attribute parser; -3 :: content of the second unpack for an
+     UPDATE that decoded to nothing; else the (code, value id) pairs left in the message's collection *)
+  Definition xobs (o : output Z Z (list (Z * Z)) bool unit) : list Z :=
     match o with
     | OErr _ _ _ _ _ e => [-1 - e]
     | OUpd _ _ _ _ _ _ a _ _ => flat_map (fun kv => [fst kv; snd kv]) a
